@@ -127,11 +127,31 @@ func TestVerifScenario(t *testing.T) {
 	rnd := rand.New(rand.NewSource(5))
 	bg := cptvframe.NewFrame(cam)
 	f := cptvframe.NewFrame(cam)
+	occupied := []string{}
 	os.Stderr.WriteString("VERIF-MARK begin\n")
 	for _, op := range ops {
 		switch op {
 		case 'z':
 			time.Sleep(3 * time.Millisecond)
+		case 'x':
+			// the names of the next milliseconds are taken (as by the other recorder of the same directory, whose
+			// open recording has the temp name and whose finished one has the final name): the next start must
+			// pick a free one
+			now := time.Now()
+			for k := 0; k < 14; k++ {
+				n := filepath.Join(dir, now.Add(time.Duration(k)*time.Millisecond).Format("20060102.150405.000."+cptvTempExt))
+				if k%2 == 1 {
+					n = recordingFinalName(n)
+				}
+				if fileExists(n) || fileExists(recordingFinalName(n)) || fileExists(n+".tmp") {
+					continue // a name of the scenario's own recordings
+				}
+				if fo, err := os.OpenFile(n, os.O_WRONLY|os.O_CREATE|os.O_EXCL, 0644); err == nil {
+					fo.WriteString("in use " + n)
+					fo.Close()
+					occupied = append(occupied, n)
+				}
+			}
 		case 'S':
 			if err := recB.StartRecording(bg, 2950); err != nil {
 				t.Fatal(err)
@@ -162,6 +182,17 @@ func TestVerifScenario(t *testing.T) {
 		}
 	}
 	os.Stderr.WriteString("VERIF-MARK end\n")
+	if len(occupied) > 0 {
+		reused := 0
+		for _, n := range occupied {
+			b, err := os.ReadFile(n)
+			if err != nil || string(b) != "in use "+n {
+				reused++
+			}
+			os.Remove(n)
+		}
+		os.WriteFile(dir+".occupied.json", []byte(fmt.Sprintf(`{"occupied": %d, "reused": %d}`, len(occupied), reused)), 0644)
+	}
 }
 
 // TestVerifInspect: list VERIF_DIR (decoding every *.cptv), run the start-up
